@@ -12,8 +12,10 @@ import (
 	"strconv"
 	"strings"
 
+	"buf.build/gen/go/bufbuild/protovalidate/protocolbuffers/go/buf/validate"
 	"google.golang.org/protobuf/proto"
 	"google.golang.org/protobuf/reflect/protoreflect"
+	"google.golang.org/protobuf/types/descriptorpb"
 	"pgregory.net/rapid"
 
 	"verif/harness/model"
@@ -163,6 +165,7 @@ func buildC06(e *engine, p *rt.Package) {
 					}
 				}
 				annotated := deepAnnotated(info.In, map[protoreflect.FullName]bool{}) || deepAnnotated(info.Out, map[protoreflect.FullName]bool{})
+				hasRules := messageHasRules(info.In, 0)
 				return func(t *rapid.T) {
 					if srv.regErr != "" {
 						t.Fatalf("%s", srv.regErr)
@@ -179,7 +182,11 @@ func buildC06(e *engine, p *rt.Package) {
 							}
 						}
 					}
-					mode := rapid.SampledFrom([]string{"success", "success", "success", "handler_error", "malformed_body"}).Draw(t, "mode")
+					modes := []string{"success", "success", "success", "handler_error", "malformed_body"}
+					if hasRules {
+						modes = append(modes, "rule_violation", "rule_violation")
+					}
+					mode := rapid.SampledFrom(modes).Draw(t, "mode")
 					o := valgen.Opts{JSONSafe: false, NoNaN: e.avoid("float_nonfinite_vs_number_schema")}
 					if o.NoNaN {
 						res.excluded(e.cfg.Avoid["float_nonfinite_vs_number_schema"] + ":float_nonfinite_vs_number_schema")
@@ -203,7 +210,35 @@ func buildC06(e *engine, p *rt.Package) {
 							}
 						}
 					}
+					if hasRules {
+						if mode == "rule_violation" {
+							// a request the rules refuse: the 400 the server answers is a published response too
+							if len(violationPaths(req)) == 0 {
+								return
+							}
+						} else {
+							repair(rm, 0)
+							if len(violationPaths(req)) > 0 {
+								return
+							}
+						}
+					}
+					if hasRules {
+						// rule-driven values of path variables may be unroutable text (a URI, an empty string): C01 owns those
+						for _, fd := range info.PathFields {
+							if fd != nil && fd.Kind() == protoreflect.StringKind {
+								if s := rm.Get(fd).String(); s == "" || s == "." || s == ".." || strings.ContainsAny(s, "/\\") {
+									return
+								}
+							}
+						}
+					}
 					resp := valgen.Message(t, m.NewResp, "resp", o)
+					// a handler answers with values of its own contract: rules on shared types hold in responses too
+					repair(resp.ProtoReflect(), 0)
+					if len(violationPaths(resp)) > 0 {
+						return
+					}
 					var herr error
 					if mode == "handler_error" {
 						herr = errors.New("boom " + valgen.String(t, "msg"))
@@ -248,6 +283,17 @@ func buildC06(e *engine, p *rt.Package) {
 					res.sample(map[string]any{"request_line": sent.Method + " " + sent.URI, "request_body": short(string(sent.Body), 200), "status": ri.status, "response_body": short(string(tr.lastResp), 200)})
 					if strings.ToUpper(verb) != sent.Method {
 						t.Fatalf("the client used %s, the document publishes %s for %s", sent.Method, verb, m.Name)
+					}
+					if mode == "rule_violation" {
+						if ri.status != 400 {
+							return // C10 judges whether the rules are enforced
+						}
+						tree, perr := model.ParseJSON(tr.lastResp)
+						if perr != nil {
+							t.Fatalf("400 response body is not JSON: %s", short(string(tr.lastResp), 200))
+						}
+						validate(t, "400 response body (rule violation)", responseSchema(op, "400"), tree, string(tr.lastResp))
+						return
 					}
 					// request body
 					if len(sent.Body) > 0 {
@@ -348,4 +394,25 @@ func buildC06(e *engine, p *rt.Package) {
 			}})
 		}
 	}
+}
+
+// messageHasRules reports whether md or a message it contains carries buf.validate rules.
+func messageHasRules(md protoreflect.MessageDescriptor, depth int) bool {
+	if depth > 6 {
+		return false
+	}
+	if mo, ok := md.Options().(*descriptorpb.MessageOptions); ok && mo != nil && proto.HasExtension(mo, validate.E_Message) {
+		return true
+	}
+	fs := md.Fields()
+	for i := 0; i < fs.Len(); i++ {
+		fd := fs.Get(i)
+		if fieldRules(fd) != nil {
+			return true
+		}
+		if fd.Kind() == protoreflect.MessageKind && !fd.IsMap() && fd.Message().FullName() != md.FullName() && messageHasRules(fd.Message(), depth+1) {
+			return true
+		}
+	}
+	return false
 }
